@@ -10,7 +10,7 @@ RULE = (
     "and midnight); every (state, operation) is replayed on the real CsvPaths in a fresh sandbox under a virtual clock; invariants "
     "after EVERY run: exactly one new run directory appeared, under archive/<its own group>/; every file of every earlier run is "
     "byte-identical; directory names of runs started in different seconds sort chronologically; $g.results.<prefix>:last.<id> and "
-    ":first resolve into the most recent / earliest run with that prefix (prefixes: empty, date, date+hour); non-trivial = the "
+    ":first resolve - asked of a fresh instance, of the running instance and of one long-lived observer instance - into the most recent / earliest run with that prefix (prefixes: empty, date, date+hour); non-trivial = the "
     "history reuses an instance or repeats a second; canonical state = (run directory names per group, clock position, groups run "
     "on the live instance)"
 )
@@ -126,6 +126,7 @@ def run_history(hist):
     for g, ps in GROUPS.items():
         setup.paths_manager.add_named_paths(name=g, paths=list(ps))
     cp = None
+    observer = CsvPaths(print_default=False)
     live_groups = []
     runs = []  # model: (group, instant, dirname)
     collecting = {}
@@ -204,14 +205,17 @@ def run_history(hist):
                     if not all(collecting.get((gg, d)) for d in ok_dirs):
                         continue  # the extreme run kept no data.csv (fast_forward/next without collect): nothing to resolve to
                     ref = f"${gg}.results.{prefix}:{which}.{FIRST_ID[gg]}"
-                    try:
-                        p = CsvPaths(print_default=False).file_manager.get_named_file(ref)
-                    except Exception as e:  # noqa: BLE001
-                        p = f"EXC {type(e).__name__}: {str(e)[:80]}"
                     want = [os.path.join("archive", gg, d, FIRST_ID[gg], "data.csv") for d in ok_dirs]
-                    pn = os.path.normpath(p) if isinstance(p, str) and not p.startswith("EXC") else p
-                    if pn not in want and not (isinstance(pn, str) and any(pn.endswith(w) for w in want)):
-                        bad(f":{which} resolution (prefix kind {'empty' if not prefix else ('date' if len(prefix) == 10 else 'date+hour')})", pn, want)
+                    # resolved by a fresh instance, by the instance that made the latest run, and by one long-lived observer instance that
+                    # has resolved the same reference after every earlier run (an implementation may remember earlier answers)
+                    for who, inst_ in (("fresh instance", CsvPaths(print_default=False)), ("running instance", cp), ("long-lived observer", observer)):
+                        try:
+                            p = inst_.file_manager.get_named_file(ref)
+                        except Exception as e:  # noqa: BLE001
+                            p = f"EXC {type(e).__name__}: {str(e)[:80]}"
+                        pn = os.path.normpath(p) if isinstance(p, str) and not p.startswith("EXC") else p
+                        if pn not in want and not (isinstance(pn, str) and any(pn.endswith(w) for w in want)):
+                            bad(f":{which} resolution by a {who} (prefix kind {'empty' if not prefix else ('date' if len(prefix) == 10 else 'date+hour')})", pn, want)
     dirs = _rundirs(root)
     key = run.h64((sorted(dirs.items()), idx, tuple(sorted(set(live_groups))), live_groups[-1] if live_groups else None, cp is not None))
     return {"key": key, "viol": viol, "transitions": len(hist), "nontrivial": nontrivial}
